@@ -66,3 +66,27 @@ Example C01_model_runs :
     200 200 (VList [VInt 1; VTuple [VNone]; VDict [(VStr [97]%N, VBool true)] [0%nat]]) 4 79 71 None 1000 false
   = Some [91; 49; 44; 32; 40; 78; 111; 110; 101; 44; 41; 44; 32; 123; 39; 97; 39; 58; 32; 84; 114; 117; 101; 125; 93]%N.
 Proof. vm_compute. reflexivity. Qed.
+
+(** (3) End to end inside Coq, for values without strings (ints, floats,
+    bools, None, Ellipsis, every container, subclass instances, comments,
+    pretty_call objects): the SDoc stream the model of the layout engine REALLY
+    emits - any width, ribbon, indent, depth, max_seq_len, sort - carries
+    exactly the tokens of [expr_of]: composition of C04_membership, the bridge
+    between layouts and token projections (Proofs/LayToks.v) and (1). *)
+From PP Require Import Sem LayToks CleanDocs EndToEnd.
+Theorem C01_engine_output_tokens :
+  forall (printable sp wd lb : N -> bool) (fuel ff : nat) (v : pyval) (indent width rw : Z)
+         (depth : option Z) (maxlen : Z) (sort : bool) (out : list sdoc),
+    nostr v -> wf_val v ->
+    sdocs_model printable sp wd lb fuel ff v indent width rw depth maxlen sort = Some out ->
+    stoks (strip out) MNormal = etoks (expr_of (mkE depth maxlen sort) v false).
+Proof. exact engine_output_tokens. Qed.
+Print Assumptions C01_engine_output_tokens.
+
+Example C01_engine_example :
+  option_map (fun out => stoks (strip out) MNormal)
+    (sdocs_model (fun _ => true) (fun c => N.eqb c 32) (fun _ => true) (fun c => N.eqb c 10) 300 300
+       (VList [VInt 1; VCommented (VTuple [VNone]) [99]%N; VDict [(VInt 2, VSet [])] [0%nat]]) 4 6 6 None 1000 false)
+  = Some (etoks (expr_of (mkE None 1000 false)
+       (VList [VInt 1; VCommented (VTuple [VNone]) [99]%N; VDict [(VInt 2, VSet [])] [0%nat]]) false)).
+Proof. vm_compute. reflexivity. Qed.
